@@ -537,6 +537,7 @@ func report(s *Session, prop, tier string, seed int, vcs []*FuncVC, filter func(
 	solverMs := map[string]int64{}
 	var samples []string
 	kfPrinted := map[string]bool{}
+	knownHit := []string{}
 	os.MkdirAll(filepath.Join(s.Verif, "replays"), 0o755)
 	for _, vc := range vcs {
 		funcs[vc.Key] = vc.Status
@@ -612,6 +613,10 @@ func report(s *Session, prop, tier string, seed int, vcs []*FuncVC, filter func(
 				}
 			}
 			if isKnown {
+				// a listed finding is reported separately and not counted among the obligations claimed as proved
+				total--
+				obls = obls[:len(obls)-1]
+				knownHit = append(knownHit, o.Name)
 				continue
 			}
 			rp := writeReplay(s, prop, vc, o, qdir, timeout)
@@ -658,6 +663,7 @@ func report(s *Session, prop, tier string, seed int, vcs []*FuncVC, filter func(
 			"samples":               samples,
 			"engine_errors":         engineErrs,
 			"per_solver_timeout_ms": timeout,
+			"known_findings":        knownHit,
 		},
 		"assumptions": assumptions,
 		"wall_s":      time.Since(t0).Seconds(),
